@@ -317,6 +317,8 @@ def r4(ck, F):
                 if p.end != "return" or not show(p.ret).startswith("Option::Some"):
                     continue
                 nacc += 1
+                if not any(show(c[0]).startswith("is_file(") and c[1] != 0 for c in p.conds):
+                    problems.add("an entry is accepted without metadata.is_file() having been true: directories and symlinks could be pruned")
                 for field, test in (("log_filename_prefix", "starts_with"), ("log_filename_suffix", "ends_with")):
                     states = [option_test(c)[1] for c in p.conds if field in show(c[0]) and option_test(c)[0] is not None]
                     matched = any(show(c[0]).startswith(test + "(") and c[1] != 0 for c in p.conds)
